@@ -88,7 +88,7 @@ structure COResult where
   sys : SysF
   /-- "draw request": was `_read_configuration` called? -/
   read : Bool
-deriving DecidableEq, Repr
+deriving Repr
 
 /-- `EngineBase.calculate_order(system, xyz, vel, box)` statement by statement:
     ```
